@@ -123,10 +123,20 @@ func (v *Verifier) VerifyFunc(fn *ssa.Function, opts UnitOpts, so *SolveOpts) *U
 		}
 		cso := *so
 		cso.Timeout = 3 * time.Second
-		cso.FirstTry = 1 * time.Second
+		cso.FirstTry = 1000 * time.Millisecond
+		cso.BatchOnly = true
+		cso.WantModel = false
 		SolveAll(aux, u.W.Prelude(), &cso)
 		dropped := 0
 		for _, o := range aux {
+			if os.Getenv("GOVC_DEBUG") != "" {
+				fmt.Fprintf(os.Stderr, "round %d cand %s: %s (%d queries)\n", round, o.Name, o.Status(), len(o.Queries))
+				if d := os.Getenv("GOVC_DUMPCAND"); d != "" && strings.Contains(o.Name, d) && round == 2 {
+					for qi, q := range o.Queries {
+						fmt.Fprintf(os.Stderr, ";;;; cand query %d (%s)\n%s\n", qi, q.Result, q.SMT(u.W.Prelude()))
+					}
+				}
+			}
 			if !o.Discharged() {
 				id := strings.TrimPrefix(o.Name, "cand:")
 				disabled[id] = true
